@@ -39,6 +39,7 @@ type vfCluster struct {
 	migrating bool     // owner: slot S is MIGRATING to the other node
 	importing bool     // other node: slot S is IMPORTING
 	slotS     int
+	redirects int // MOVED / ASK answers given by the nodes
 	slotQ     int
 }
 
@@ -122,13 +123,16 @@ func (cl *vfCluster) exec(n *vfCNode, body *RespValue) *RespValue {
 	}
 	if k == 2 { // slot Q: stable on B
 		if n != cl.b {
+			cl.redirects++
 			return newError("MOVED " + vfItoa(cl.slotQ) + " " + cl.b.addr)
 		}
 	} else if n == cl.owner {
 		if cl.migrating && !n.kv.has[k] {
+			cl.redirects++
 			return newError("ASK " + vfItoa(cl.slotS) + " " + cl.other(n).addr)
 		}
 	} else if !(cl.importing && asking) {
+		cl.redirects++
 		return newError("MOVED " + vfItoa(cl.slotS) + " " + cl.owner.addr)
 	}
 	n.execs++
@@ -319,6 +323,8 @@ func VfC04_Migration() {
 		want := vfRefCommand(&ref, body)
 		total += vfPerKeyCommands(body)
 		raw := newRawRequest(body)
+		stable := !cl.migrating && !cl.importing && p.u.slots[cl.slotS].Addr == cl.owner.addr
+		before := cl.redirects
 		p.handleRequest(raw)
 		// the nodes answer what reached them, in arrival order per connection, until nothing is pending
 		for round := 0; round < 8 && !vfDone(raw.done); round++ {
@@ -347,6 +353,10 @@ func VfC04_Migration() {
 		nd.Assert(vfSameReply(got, want), "the reply equals the reply of a single Redis server, during every phase of a migration")
 		nd.Assert(vfForwarded(clients) == 0, "nothing is left behind on any backend connection")
 		nd.Assert(cl.a.execs+cl.b.execs == total, "each per-key command is executed exactly once on the node that accepts it")
+		if stable {
+			nd.Assert(cl.redirects == before, "with a loaded routing table and a stable layout no command is redirected")
+			nd.Cover("stable-layout")
+		}
 		if cl.migrating {
 			nd.Cover("command-during-migration")
 		}
